@@ -27,7 +27,10 @@ func bindingFor(c *conv.Case) func(string) string {
 
 // mutate returns a mutated copy of a response and whether the decoder MUST report an error
 // (an abstract value whose __typename is missing, empty, not a string or unknown).
-func mutate(r *core.Rng, v interface{}, kind string) (interface{}, bool) {
+func mutate(r *core.Rng, v interface{}, kind string) (interface{}, bool) { return mutateAt(r, v, kind, -1) }
+
+// mutateAt: as mutate, on the pick-th abstract object of the response (pick < 0: a random one).
+func mutateAt(r *core.Rng, v interface{}, kind string, pick int) (interface{}, bool) {
 	// collect paths to objects with __typename
 	type ref struct {
 		parent interface{}
@@ -88,6 +91,12 @@ func mutate(r *core.Rng, v interface{}, kind string) (interface{}, bool) {
 			return root, false
 		}
 		o := typed[r.Intn(len(typed))]
+		if pick >= 0 {
+			if pick >= len(typed) {
+				return root, false
+			}
+			o = typed[pick]
+		}
 		switch kind {
 		case "typename-unknown":
 			o.Vals["__typename"] = "NoSuchTypeAnywhere"
@@ -147,7 +156,7 @@ var mutationKinds = []string{"typename-unknown", "typename-missing", "typename-e
 
 func run(prop, tier string, seed int64, outDir, replay string) (*core.Result, error) {
 	res := core.NewResult(prop, tier, seed)
-	nProg, nResp := 24, 10
+	nProg, nResp := 36, 8
 	if tier == "thorough" {
 		nProg, nResp = 160, 30
 	}
@@ -227,6 +236,21 @@ func run(prop, tier string, seed int64, outDir, replay string) (*core.Result, er
 					break
 				}
 			}
+			// C19: a sweep over the abstract positions of one response, each with a bad __typename
+			if prop == "C19" && replayCase == nil {
+				resp := GenResponse(rng, p.Ex.Schema, doc, bindingFor(p.Case), 0.05)
+				for pick := 0; pick < 6; pick++ {
+					kind := mutationKinds[pick%4]
+					payload, must := mutateAt(rng, resp, kind, pick)
+					if !must {
+						break
+					}
+					id := fmt.Sprintf("%s/%s/sweep%d", p.Name, op, pick)
+					raw, _ := json.Marshal(payload)
+					metas[id] = &meta{p: p, op: op, doc: doc, resp: resp, mut: kind, mustEr: true, raw: raw}
+					tasks = append(tasks, &Task{ID: id, Prog: p.Name, Op: op, Kind: "decode", JSON: raw})
+				}
+			}
 		}
 	}
 	results, err := b.Run(tasks)
@@ -251,7 +275,13 @@ func run(prop, tier string, seed int64, outDir, replay string) (*core.Result, er
 			case r.Err == "":
 				rr = "(ROk " + dumpTerm(deref(r.Dump), nt) + ")"
 			}
-			obsTerms[m.p.Name] = append(obsTerms[m.p.Name], fmt.Sprintf("{| ro_type := %s; ro_json := %s; ro_result := %s |}", coqStr(m.p.Em.Response[m.op]), jt, rr))
+			re := "None"
+			if r.Panic == "" && r.Err == "" && r.ReErr == "" && r.Remarshal != "" {
+				if t, err := jsonTerm([]byte(r.Remarshal), nt); err == nil {
+					re = "(Some " + t + ")"
+				}
+			}
+			obsTerms[m.p.Name] = append(obsTerms[m.p.Name], fmt.Sprintf("{| ro_type := %s; ro_json := %s; ro_result := %s; ro_remarshal := %s |}", coqStr(m.p.Em.Response[m.op]), jt, rr, re))
 		}
 		var rawAny interface{}
 		_ = json.Unmarshal(m.raw, &rawAny)
@@ -342,6 +372,44 @@ func run(prop, tier string, seed int64, outDir, replay string) (*core.Result, er
 				}
 				j.reEq("operation "+m.op, m.resp, re)
 			}
+			// the user's (un)marshalers must have been called for every value of their scalar
+			usesBind := false
+			for _, d := range m.p.Case.Defs {
+				if strings.Contains(d.Text, "bind:") {
+					usesBind = true
+				}
+			}
+			if !usesBind && len(m.p.Case.Cfg.Marshalers) > 0 {
+				root := "Query"
+				switch m.doc.Operations[0].Operation {
+				case ast.Mutation:
+					root = "Mutation"
+				case ast.Subscription:
+					root = "Subscription"
+				}
+				counts := map[string]int{}
+				j.scalarCounts(m.resp, m.doc.Operations[0].SelectionSet, root, counts, 0)
+				fnKey := func(ref string) string { return ref[strings.LastIndex(ref, ".")+1:] }
+				for sc, mu := range m.p.Case.Cfg.Marshalers {
+					n := counts[sc]
+					if prop == "C02" && mu[1] != "" {
+						calls := r.UCD[fnKey(mu[1])]
+						res.Dist(fmt.Sprintf("custom-unmarshaler:%v", n > 0))
+						if n > 0 && calls < n {
+							fail("C02/custom-unmarshaler-not-called", fmt.Sprintf("the response has %d non-null value(s) of scalar %s, whose binding names the unmarshaler %s, but it was called %d time(s)", n, sc, mu[1], calls))
+						} else if n == 0 && calls > 0 {
+							fail("C02/custom-unmarshaler-called-without-value", fmt.Sprintf("unmarshaler %s was called %d time(s) although the response has no value of scalar %s", mu[1], calls, sc))
+						}
+					}
+					if prop == "C06" && mu[0] != "" {
+						calls := r.UCM[fnKey(mu[0])]
+						res.Dist(fmt.Sprintf("custom-marshaler:%v", n > 0))
+						if n > 0 && calls < n {
+							fail("C06/custom-marshaler-not-called", fmt.Sprintf("the decoded value has %d non-null value(s) of scalar %s, whose binding names the marshaler %s, but marshaling called it %d time(s)", n, sc, mu[0], calls))
+						}
+					}
+				}
+			}
 			for _, f := range j.fails {
 				fail(f.Class, f.What)
 			}
@@ -369,7 +437,7 @@ func run(prop, tier string, seed int64, outDir, replay string) (*core.Result, er
 			end = len(terms)
 		}
 		var sb strings.Builder
-		sb.WriteString("From Coq Require Import ZArith.\nFrom Verif Require Import Base.Str Gen.Casing Gen.Gql Gen.Directive Gen.Convert Rt.JsonDecode Corr.Convcorr Corr.Rtcorr.\n")
+		sb.WriteString("From Coq Require Import ZArith.\nFrom Verif Require Import Base.Str Gen.Casing Gen.Gql Gen.Directive Gen.Convert Rt.JsonDecode Rt.JsonEncode Corr.Convcorr Corr.Rtcorr.\n")
 		sb.WriteString("Definition cases : list rt_case := [\n" + strings.Join(terms[k*shard:end], ";\n") + "\n].\n")
 		sb.WriteString("Definition MISMATCH := Eval vm_compute in rt_mismatches cases.\nPrint MISMATCH.\n")
 		fn := fmt.Sprintf("%s/cases_rt_%d.v", outDir, k)
